@@ -127,6 +127,19 @@ def selftest():
                                    % (n, k, mpmath.nstr(dt, 3), mpmath.nstr(dw, 3)))
 
 
+def _bucket(ctx, name, err, tol):
+    """Decade histogram of err/tol in evidence (how much head-room the tolerance has)."""
+    if err <= 0 or tol <= 0:
+        ctx.count("%s:0" % name)
+        return
+    r = err / tol
+    if r >= 0.1:
+        ctx.count("%s:%s" % (name, "0.1..0.2" if r < 0.2 else "0.2..0.5" if r < 0.5 else ">=0.5"))
+        return
+    d = int(np.floor(np.log10(r)))
+    ctx.count("%s:%s" % (name, "<1e-6" if d < -6 else "1e%d..1e%d" % (d, d + 1)))
+
+
 def mapped_ref(n, a, b):
     """Reference nodes ordered from a to b and weights (sign of b-a), longdouble."""
     t, w = ref_rule(n)
@@ -236,6 +249,9 @@ def check_rule(case, ctx):
     require(dx <= tol_x, "abscissae differ from the reference rule by %.3g > %.3g (n=%d)", dx, tol_x, n)
     dw = float(np.max(np.abs(ws - wr)))
     require(dw <= tol_w, "weights differ from the reference rule by %.3g > %.3g (n=%d)", dw, tol_w, n)
+    _bucket(ctx, "dx/tol", dx, tol_x)
+    _bucket(ctx, "dw/tol", dw, tol_w)
+    _bucket(ctx, "asym/4ulp", asym, 4 * ulp)
 
 
 def classify_rule(case):
@@ -291,8 +307,7 @@ def check_exact(case, ctx):
     m_lo = float(np.max(np.abs(_legendre_series(coef, grid))))
     if err > 1e-9 * float(abs(lb - la)) * m_lo:
         ctx.count("error-between-sampled-max-and-sum|c|-bound")
-    if err > 1e-3 * tol:
-        ctx.count("error-above-1e-3-of-tolerance")
+    _bucket(ctx, "err/tol", err, tol)
 
 
 def classify_exact(case):
@@ -342,10 +357,17 @@ def _make_f(spec):
     return _family(spec["name"], spec["k"], spec["ph"], spec["c"], spec["s"])
 
 
+_GRID = np.linspace(LD(0), LD(1), 65)
+
+
 def _ref_func_integral(n, a, b, f):
+    """(reference weighted sum, max|f| over the nodes and a 65-point grid of [a,b]).  The scale
+    of the tolerance is the size of f on the interval, not at the nodes alone (a 1-point rule
+    may sit on a zero of f)."""
     xr, wr = mapped_ref(n, a, b)
     y = f(xr)
-    return (wr * y).sum(), float(np.max(np.abs(y)))
+    yg = f(LD(a) + (LD(b) - LD(a)) * _GRID)
+    return (wr * y).sum(), max(float(np.max(np.abs(y))), float(np.max(np.abs(yg))))
 
 
 def _range_arg(a, b, kind):
@@ -387,8 +409,7 @@ def check_func(case, ctx):
     err = float(abs(LD(got) - ref))
     require(err <= tol, "%s(%s, n=%d) on [%r,%r] = %r, reference weighted sum %r (diff %.3g > %.3g)",
             call, case["f"]["name"], n, a, b, float(got), float(ref), err, tol)
-    if err > 1e-3 * tol:
-        ctx.count("error-above-1e-3-of-tolerance")
+    _bucket(ctx, "err/tol", err, tol)
 
 
 def classify_func(case):
@@ -460,8 +481,7 @@ def check_data(case, ctx):
     err = float(abs(LD(got) - ref))
     require(err <= tol, "%s over a %d-point table with n=%d = %r, reference %r (diff %.3g > %.3g)",
             call, xs.size, n, float(got), float(ref), err, tol)
-    if err > 1e-3 * tol:
-        ctx.count("error-above-1e-3-of-tolerance")
+    _bucket(ctx, "err/tol", err, tol)
 
 
 def classify_data(case):
@@ -597,12 +617,13 @@ def check_gauss2d(case, ctx):
     yr, wy = mapped_ref(ny, ay, by)
     z = f(xr[np.newaxis, :] + 0 * yr[:, np.newaxis], yr[:, np.newaxis] + 0 * xr[np.newaxis, :])
     ref = (z * wx[np.newaxis, :] * wy[:, np.newaxis]).sum()
-    tol = 1e-9 * abs(bx - ax) * abs(by - ay) * float(np.max(np.abs(z)))
+    gx, gy = LD(ax) + (LD(bx) - LD(ax)) * _GRID[::4], LD(ay) + (LD(by) - LD(ay)) * _GRID[::4]
+    zg = f(gx[np.newaxis, :] + 0 * gy[:, np.newaxis], gy[:, np.newaxis] + 0 * gx[np.newaxis, :])
+    tol = 1e-9 * abs(bx - ax) * abs(by - ay) * max(float(np.max(np.abs(z))), float(np.max(np.abs(zg))))
     err = float(abs(LD(got) - ref))
     require(err <= tol, "QGauss2(%d,%d).integrate_func(%s) = %r, tensor-product reference %r (diff %.3g > %.3g)",
             nx, ny, sp["name"], float(got), float(ref), err, tol)
-    if err > 1e-3 * tol:
-        ctx.count("error-above-1e-3-of-tolerance")
+    _bucket(ctx, "err/tol", err, tol)
 
 
 def classify_gauss2d(case):
